@@ -189,6 +189,7 @@ enum { OP_PUT, OP_REMOVE, OP_REMOVEIDX, OP_CLEAR };
 typedef struct { int kind, k, li; const char *label; } op_t;
 static op_t OPS[64]; static int NOPS;
 static int slot_key(unsigned char *reg, int i) {   /* which universe key lives in key slot i (by length, prefix, digest) */
+    if (i < 0 || i >= M) return -1;   /* not a slot of this table: remove_by_idx must refuse without touching anything */
     qhasharr_slot_t *s = SL(reg); if (s[i].count == 0 || s[i].count == -2) return -1;
     for (int k = 0; k < NK; k++) {
         if (s[i].data.pair.namesize != KEYN[k] || memcmp(s[i].data.pair.name, KEYS[k], KEYN[k] < 16 ? KEYN[k] : 16)) continue;
@@ -305,7 +306,7 @@ static void setup(void) {
     NOPS = 0;
     for (int k = 0; k < NK; k++) for (int li = 0; li < NLEN; li++) OPS[NOPS++] = (op_t){OP_PUT, k, li, (k & 1) ? "qhasharr_put_by_obj" : "qhasharr_put"};
     for (int k = 0; k < NK; k++) OPS[NOPS++] = (op_t){OP_REMOVE, k, 0, (k & 1) ? "qhasharr_remove_by_obj" : "qhasharr_remove"};
-    for (int i = 0; i < M; i++) OPS[NOPS++] = (op_t){OP_REMOVEIDX, i, 0, "qhasharr_remove_by_idx"};
+    for (int i = -1; i <= M + 1; i++) OPS[NOPS++] = (op_t){OP_REMOVEIDX, i, 0, "qhasharr_remove_by_idx"};   /* -1, M, M+1: indexes that are no slot */
     OPS[NOPS++] = (op_t){OP_CLEAR, 0, 0, "qhasharr_clear"};
 }
 static void initial_image(unsigned char *img) {
@@ -374,10 +375,42 @@ static void bigkey(void) {
     vc_sample("two 65535-byte keys differing in the last byte: put, get, size, remove");
     vc_case_end();
 }
+/* constructor family: every region size 1..MAXSZ, in a heap block of exactly that size. The documentation promises a table
+ * whenever the region has room for the header and at least one slot (qhasharr_calculate_memsize(1)), and EINVAL below */
+static void ctor_family(int maxsz) {
+    size_t hdr = qhasharr_calculate_memsize(0), slot = qhasharr_calculate_memsize(1) - hdr;
+    for (int sz = 1; sz <= maxsz; sz++) {
+        char key[64]; snprintf(key, sizeof key, "hasharr-ctor:%d", sz);
+        if (!vc_case("qhasharr", key)) continue;
+        int want = (size_t)sz >= hdr + slot ? (int)((sz - hdr) / slot) : 0;
+        unsigned char *blk = malloc(sz); memset(blk, 0xEE, sz);
+        errno = 0; qhasharr_t *t = qhasharr(blk, sz); int e = errno;
+        if (want == 0) {
+            if (t) vc_viol("image:ctor", "qhasharr(mem, %d) returned a table although not even one slot fits", sz);
+            else if (e != EINVAL) vc_viol("image:ctor", "qhasharr(mem, %d) refused with errno %d, EINVAL is documented", sz, e);
+            for (int i = 0; i < sz && !t; i++) if (blk[i] != 0xEE) { vc_viol("image:ctor", "refused qhasharr(mem, %d) wrote into the region", sz); break; }
+        } else if (!t) vc_viol("image:ctor", "qhasharr(mem, %d) returned NULL (errno %d) although %d slot(s) fit", sz, e, want);
+        else {
+            int mx = -1, us = -1, n = t->size(t, &mx, &us);
+            if (n != 0 || mx != want || us != 0) vc_viol("image:ctor", "qhasharr(mem, %d): size triple (%d,%d,%d), expected (0,%d,0)", sz, n, mx, us, want);
+            int ok = 0; char kb[16];
+            for (int i = 0; i < want + 1; i++) { snprintf(kb, sizeof kb, "c%d", i); if (t->put(t, kb, "v", 1)) ok++; else if (errno != ENOBUFS) vc_viol("space:errno", "full table refused a put with errno %d", errno); }
+            if (ok != want) vc_viol("space:ctor-capacity", "qhasharr(mem, %d): %d one-slot puts succeeded, %d slots", sz, ok, want);
+            for (int i = 0; i < ok; i++) { snprintf(kb, sizeof kb, "c%d", i); size_t n2 = 0; char *d = t->get(t, kb, &n2); if (!d || n2 != 1 || d[0] != 'v') vc_viol("image:get-value", "qhasharr(mem, %d): key %s not read back", sz, kb); free(d); }
+        }
+        if (t) t->free(t);
+        free(blk);
+        const char *a = vc_asan_check(); if (a) { char cls[96]; snprintf(cls, sizeof cls, "asan:%s:qhasharr", a); vc_viol(cls, "sanitizer report in qhasharr(mem, %d)", sz); }
+        vc_stat_add("transitions", 1); vc_stat_add("ctor_sizes", 1);
+        vc_case_end();
+    }
+    vc_sample("qhasharr(mem, n) for every n in 1..%d: NULL/EINVAL below %zu bytes, else (n-%zu)/%zu slots, filled to capacity and read back", maxsz, hdr + slot, hdr, slot);
+}
 static int worker(int argc, char **argv) {
-    if (vc_replay_key) { if (!strcmp(vc_replay_key, "hasharr-bigkey")) { bigkey(); return 0; } return replay(vc_replay_key); }
+    if (vc_replay_key) { if (!strcmp(vc_replay_key, "hasharr-bigkey")) { bigkey(); return 0; } if (!strncmp(vc_replay_key, "hasharr-ctor:", 13)) { vc_viol_print_per_class = 5; ctor_family(4096); return 0; } return replay(vc_replay_key); }
     if (argc < 2) return 1;
     if (!strcmp(argv[1], "bigkey")) { bigkey(); return 0; }
+    if (!strcmp(argv[1], "ctor")) { ctor_family(atoi(argv[2])); return 0; }
     M = atoi(argv[1]); setup();
     char ks[256], *p = ks; for (int k = 0; k < NK; k++) p += sprintf(p, "%s(home %d) ", KEYS[k], HOME[k]);
     printf("NOTE\tM=%d slot=%zu bytes region=%zu keys: %s\n", M, sizeof(qhasharr_slot_t), REGSZ, ks);
